@@ -131,6 +131,16 @@ var globalNonNil = map[string]bool{}
 // package that is under contract, proved on exit, before calls into the package and across loops.
 var globalInvs = map[string][]Clause{}
 
+// entry invariants of volatile caches (zcache): every value stored satisfies the predicate over `v`
+// (obligation at each Set), so every value read does (assumption at each Get).
+type EntryInv struct {
+	Pkg      string
+	TypeExpr ast.Expr
+	Clause   Clause
+}
+
+var entryInvs []*EntryInv
+
 var propRe = regexp.MustCompile(`^\[([A-Z0-9, ]+)\]\s*`)
 
 func parseProps(s string) ([]string, string) {
@@ -329,6 +339,24 @@ func parseContractFile(path, pkgPath string, preds map[string]*Pred) ([]*FuncCon
 			for _, g := range strings.Fields(strings.ReplaceAll(t[len("global-nonnil "):], ",", " ")) {
 				globalNonNil[pkgPath+"."+g] = true
 			}
+			continue
+		}
+		if strings.HasPrefix(t, "entry-invariant ") {
+			rest := strings.TrimSpace(t[len("entry-invariant "):])
+			props, rest := parseProps(rest)
+			i := strings.Index(rest, ":")
+			if i < 0 {
+				return nil, fail(l, "entry-invariant needs ':'")
+			}
+			tx, err := parser.ParseExpr(strings.TrimSpace(rest[:i]))
+			if err != nil {
+				return nil, fail(l, "parse type: %v", err)
+			}
+			ex, err := parseExprText(rest[i+1:])
+			if err != nil {
+				return nil, fail(l, "parse: %v", err)
+			}
+			entryInvs = append(entryInvs, &EntryInv{Pkg: pkgPath, TypeExpr: tx, Clause: Clause{Props: props, Text: strings.TrimSpace(rest[i+1:]), Expr: ex, Line: l.no}})
 			continue
 		}
 		if strings.HasPrefix(t, "global-invariant ") {
